@@ -1053,7 +1053,7 @@ func GenC15(seed, index uint64) *Run {
 
 // GenC16: a shared read-only pool built by a sequential setup programme, then
 // 2..8 tasks that use the pool as arguments only.
-func GenC16(seed, index uint64, build string, funcs, hot []string) *Run {
+func GenC16(seed, index uint64, build string, funcs, hot, sharedHot []string) *Run {
 	r := prng.New(prng.Mix(seed, index))
 	run := &Run{Prop: "C16", Seed: seed, Index: index, Build: build, NE: 1 + r.N(3), NS: 1 + r.N(3), Arena: true}
 	run.ObsAll = r.P(0.3)
@@ -1183,7 +1183,13 @@ func GenC16(seed, index uint64, build string, funcs, hot []string) *Run {
 		run.Sched = sched.Spec{Policy: "walk", P: p}
 	case 2:
 		var fs []string
-		if len(hot) > 0 && r.P(0.6) {
+		if len(sharedHot) > 0 && r.P(0.5) {
+			// functions that write state which outlives the call (package-level
+			// variables, variables captured by closures) come first
+			for i, k := 0, 1+r.N(2); i < k; i++ {
+				fs = append(fs, sharedHot[r.N(len(sharedHot))])
+			}
+		} else if len(hot) > 0 && r.P(0.6) {
 			// aim at the functions that touch package-level state or
 			// synchronisation: that is where a switch can tear shared state
 			for i, k := 0, 1+r.N(3); i < k; i++ {
